@@ -144,6 +144,8 @@ def tune_c04(rng, k):
         k["w"]["at_switch"] = 2      # exclusion switched off and on in the middle of retract cycles
     if rng.random() < 0.3:
         k["w"]["units"] = 5          # unit switches in the middle of retract cycles
+    if rng.random() < 0.3:
+        k["p_terminal_g92e"] = 0.5   # G92 E typed into the terminal while the job runs
 
 
 tune_c05 = tune_c04
@@ -221,6 +223,7 @@ def tune_c14(rng, k):
     k["p_foreign_at"] = 0.15
     if rng.random() < 0.4:
         k["w"]["at_config"] = 1.0      # the configured actions change mid-run
+        k["at_broken"] = True
     if not k.get("custom_at") and rng.random() < 0.25:
         k["settings"] = dict(k.get("settings") or {}, atCommandActions=list(gen.INTERLEAVED_AT))
 
@@ -425,6 +428,10 @@ class RestartCheck(object):
             # settings saved after the history stopped (e.g. while idle after an aborted job)
             ops1.append({"op": "settings", "set": {rng.choice(["enteringExcludedRegionGcode",
                          "exitingExcludedRegionGcode"]): gen.rand_script(rng, rng.choice(["ENTER", "EXIT"]))}})
+        if rng.random() < 0.15:
+            # the global "G90/G91 influence the extruder" feature switched at run time (a fresh plugin reads it at
+            # start-up, a used one on SETTINGS_UPDATED)
+            ops1.insert(rng.randrange(0, len(ops1) + 1), {"op": "settings", "set": {"g90e": not cfg["g90e"]}})
         for _ in range(rng.choice([0, 0, 1, 2])):
             pos = rng.randrange(0, len(ops1) + 1)
             ops1.insert(pos, rng.choice([{"op": "event", "name": rng.choice(
